@@ -70,6 +70,11 @@ thread_local! {
     static CTOR: std::cell::Cell<u8> = const { std::cell::Cell::new(0) };
 }
 
+thread_local! {
+    /// chains: number of messages that already wait in the first channel when the relay and the end are made
+    static PRE: std::cell::Cell<usize> = const { std::cell::Cell::new(0) };
+}
+
 fn mk_producer(s: crossbeam_channel::Sender<BddNode>) -> Bdd {
     if CTOR.with(|c| c.get()) & 1 == 1 {
         let mut b = Bdd::new();
@@ -210,9 +215,24 @@ pub fn run_chain(p: &Program, events: &[(u8, usize)], reference: &[BddNode]) -> 
     let msgs: Vec<BddNode> = pr.try_iter().collect();
     let (s1, r1) = unbounded::<BddNode>();
     let (s2, r2) = unbounded::<BddNode>();
+    // the producer may have been at work for a while when the rest of the chain is wired up
+    let mut delivered = 0;
+    while delivered < PRE.with(|p| p.get()).min(msgs.len()) {
+        s1.send(msgs[delivered]).unwrap();
+        delivered += 1;
+    }
     let mut relay = mk_relay(s2, r1);
     let mut last = Some(mk_receiver(r2));
-    let mut delivered = 0;
+    // (whatever the constructors did, nothing may have been lost)
+    if relay.nodes.len() > 2 {
+        let fwd = relay.nodes.len() - 2;
+        if let Some(l) = last.as_mut() {
+            let _ = l.recv(Term(usize::MAX));
+            if l.nodes.len() - 2 != fwd {
+                out.push(("chain:taken-but-not-forwarded".into(), format!("the relay took {} waiting nodes into its table while it was being wired up but the end of the chain received {}", fwd, l.nodes.len() - 2)));
+            }
+        }
+    }
     for (e, h) in events {
         match e {
             0 => {
@@ -247,6 +267,39 @@ pub fn run_chain(p: &Program, events: &[(u8, usize)], reference: &[BddNode]) -> 
         }
     }
     (obs, out)
+}
+
+/// producer and receiver move to a fresh channel in mid-stream: after `j` operations the receiver catches up on the old
+/// channel, then both ends are re-wired with set_sender / set_receiver and the producer goes on; the receiver polls for
+/// handle `h` and must end up with the producer's table
+pub fn run_rewire(p: &Program, j: usize, h: usize, reference: &[BddNode]) -> Vec<(String, String)> {
+    let mut out = vec![];
+    let (s1, r1) = unbounded::<BddNode>();
+    let mut prod = mk_producer(s1);
+    let mut recv = mk_receiver(r1);
+    for op in &p.ops[..j.min(p.ops.len())] {
+        apply(&mut prod, op);
+    }
+    poll(&mut recv, usize::MAX, prod.nodes.len() - 2, reference, "receiver(before re-wiring)", &mut out);
+    if recv.nodes != prod.nodes {
+        out.push(("receiver:not-caught-up".into(), "a drain poll left messages in the channel".into()));
+        return out;
+    }
+    let (s2, r2) = unbounded::<BddNode>();
+    prod.set_sender(s2);
+    recv.set_receiver(r2);
+    for op in &p.ops[j.min(p.ops.len())..] {
+        apply(&mut prod, op);
+    }
+    if prod.nodes[..] != reference[..] {
+        out.push(("producer:table-differs".into(), "the re-wired producer's table differs from its table when run alone".into()));
+    }
+    poll(&mut recv, h, prod.nodes.len() - 2, reference, "receiver(after re-wiring)", &mut out);
+    let _ = recv.recv(Term(usize::MAX));
+    if recv.nodes[..] != reference[..] {
+        out.push(("receiver:final-table".into(), format!("after re-wiring both ends to a fresh channel in mid-stream the receiver holds {} of the producer's {} nodes", recv.nodes.len(), reference.len())));
+    }
+    out
 }
 
 /// a long stream (more than 2^16 messages): polls at cut points around 65535 / 65536 and at both ends, single receiver
@@ -355,7 +408,7 @@ struct St {
 }
 
 pub fn run_c19(run: &Run) {
-    run.set_rule("producer programs = all operation sequences up to the stated length over 3 variables that create >= 1 node (deduplicated on the produced node sequence) + the two pinned test programs; schedules = every placement of up to P receiver polls at the N+1 cut points between individual node creations x every requested handle in {0..N+3, usize::MAX}; chains producer -> relay -> end with every order of deliveries, relay polls and end polls, and with the end of the chain going away at every point (the relay must stay a correct mirror); producers whose receiver goes away at every point keep building the same table. The stores are made with the with_* constructors and with new + set_sender / set_receiver (all four combinations for <= 2 polls). After every poll the receiver must hold exactly a prefix of the producer's final table, 'found' iff the handle is present, never 'not found' while the message was already delivered; after draining all tables are identical. Non-trivial: schedules with >= 1 poll strictly between two node creations.");
+    run.set_rule("producer programs = all operation sequences up to the stated length over 3 variables that create >= 1 node (deduplicated on the produced node sequence) + the two pinned test programs; schedules = every placement of up to P receiver polls at the N+1 cut points between individual node creations x every requested handle in {0..N+3, usize::MAX}; chains producer -> relay -> end with every order of deliveries, relay polls and end polls, and with the end of the chain going away at every point (the relay must stay a correct mirror); producers whose receiver goes away at every point keep building the same table. The stores are made with the with_* constructors and with new + set_sender / set_receiver (all four combinations for <= 2 polls); chains are also wired up when 1 or all messages already wait in the first channel; producer and receiver are re-wired to a fresh channel at every operation boundary. After every poll the receiver must hold exactly a prefix of the producer's final table, 'found' iff the handle is present, never 'not found' while the message was already delivered; after draining all tables are identical. Non-trivial: schedules with >= 1 poll strictly between two node creations.");
     run.assume("crossbeam channels are FIFO; producer and receivers share nothing but the channel, so polls between message deliveries are all receiver-visible schedules; memory-level interleavings inside one channel operation are not modelled");
     let quick = run.quick();
     let mut progs = pinned();
@@ -544,18 +597,24 @@ pub fn run_c19(run: &Run) {
                             }
                         })
                         .collect();
-                    for ctor in [0u8, 3] {
+                    for (ctor, pre) in [(0u8, 0usize), (3, 0), (0, 1), (3, n), (0, n), (3, 1)] {
+                        // late wiring only in the schedules in which the end of the chain stays
+                        if pre > n || (pre > 0 && s.contains(&3)) || (pre == n && n == 1 && ctor == 0) {
+                            continue;
+                        }
                         st.schedules += 1;
                         st.polls += npolls as u64;
                         CTOR.with(|c| c.set(ctor));
+                        PRE.with(|x| x.set(pre));
                         let r = guard(|| run_chain(p, &events, reference));
                         CTOR.with(|c| c.set(0));
+                        PRE.with(|x| x.set(0));
                         match r {
-                            Err(m) => run.violation("chain:panic", m, json!({"type": "chain", "program": prog_json(p), "events": events, "ctor": ctor})),
+                            Err(m) => run.violation("chain:panic", m, json!({"type": "chain", "program": prog_json(p), "events": events, "ctor": ctor, "waiting_before_wiring": pre})),
                             Ok((obs, found)) => {
                                 st.outcomes.insert(hash64(format!("{:?}", obs).as_bytes()));
                                 for (kind, msg) in found {
-                                    run.violation(&kind, format!("{} in chain schedule {:?} on program {} (stores made the way #{})", msg, events, prog_json(p), ctor), json!({"type": "chain", "program": prog_json(p), "events": events, "ctor": ctor}));
+                                    run.violation(&kind, format!("{} in chain schedule {:?} on program {} (stores made the way #{})", msg, events, prog_json(p), ctor), json!({"type": "chain", "program": prog_json(p), "events": events, "ctor": ctor, "waiting_before_wiring": pre}));
                                 }
                             }
                         }
@@ -584,6 +643,39 @@ pub fn run_c19(run: &Run) {
     for st in res {
         run.add_counts(0, st.polls, st.schedules, 0);
         run.add_outcomes(st.outcomes);
+    }
+    // re-wiring in mid-stream
+    let res = run.par_family(
+        &format!("{} producer programs x every operation boundary x every handle: both ends re-wired to a fresh channel (set_sender / set_receiver) after the receiver caught up", progs.len()),
+        progs.len() as u64,
+        || 0u64,
+        |st, k| {
+            let p = &progs[k as usize];
+            let reference = &refs[k as usize];
+            for j in 0..=p.ops.len() {
+                for h in handles(reference.len() - 2) {
+                    for ctor in [0u8, 3] {
+                        *st += 1;
+                        CTOR.with(|c| c.set(ctor));
+                        let r = guard(|| run_rewire(p, j, h, reference));
+                        CTOR.with(|c| c.set(0));
+                        let case = json!({"type": "rewire", "program": prog_json(p), "after_ops": j, "handle": h, "ctor": ctor});
+                        match r {
+                            Err(m) => run.violation("rewire:panic", m, case),
+                            Ok(found) => {
+                                for (kind, msg) in found {
+                                    run.violation(&kind, format!("{} (program {}, re-wired after {} operations, poll for {})", msg, prog_json(p), j, h as i64), case.clone());
+                                }
+                            }
+                        }
+                    }
+                }
+            }
+        },
+        &|k| json!({"type": "rewire", "program": prog_json(&progs[k as usize]), "after_ops": 0, "handle": 0}),
+    );
+    for st in res {
+        run.add_counts(0, st, st, st);
     }
     // long streams
     let sizes: Vec<usize> = if quick { vec![17_000] } else { vec![17_000, 40_000] };
@@ -614,6 +706,7 @@ pub fn replay(c: &Value) -> Vec<(String, String)> {
     let ops: Vec<Op> = c["program"].as_array().map(|a| a.iter().filter_map(op_from_json).collect()).unwrap_or_default();
     let p = Program { ops };
     CTOR.with(|x| x.set(c["ctor"].as_u64().unwrap_or(0) as u8));
+    PRE.with(|x| x.set(c["waiting_before_wiring"].as_u64().unwrap_or(0) as usize));
     let mut b = Bdd::new();
     run_program(&mut b, &p);
     let reference = b.nodes.clone();
@@ -636,6 +729,9 @@ pub fn replay(c: &Value) -> Vec<(String, String)> {
             Ok(nodes) if nodes != reference => vec![("producer:table-differs".into(), "the producer's table differs from its table when run alone".into())],
             _ => vec![],
         };
+    }
+    if c["type"] == "rewire" {
+        return guard(|| run_rewire(&p, c["after_ops"].as_u64().unwrap_or(0) as usize, c["handle"].as_u64().unwrap_or(0) as usize, &reference)).unwrap_or_else(|m| vec![("rewire:panic".into(), m)]);
     }
     if c["type"] == "chain" {
         let events: Vec<(u8, usize)> = c["events"].as_array().map(|a| a.iter().map(|e| (e[0].as_u64().unwrap_or(0) as u8, e[1].as_u64().unwrap_or(0) as usize)).collect()).unwrap_or_default();
